@@ -45,6 +45,7 @@ namespace bxdecay0 {
 
   void Pt192low(i_random & prng_, event & event_, const int levelkev_)
   {
+    BXDECAY0_VERIF_SCOPE("scheme:Pt192low", levelkev_);
     double tdlev;
     double tclev;
     double thlev;
